@@ -7,10 +7,11 @@ from decaylib import F, Gen, ancestors_sum, is_finite, within
 from oracle import DatasetView, LeanOracle, eval_adaptive
 
 NEEDS_DATASET = True
-TARGETS = ["RdVerif.Props.C07", "RdVerif.Props.C01Oracle"]
+TARGETS = ["RdVerif.Props.C07", "RdVerif.Props.C01Oracle", "RdVerif.Props.AllDatasets"]
 THEOREMS = ["RdVerif.C07.flow_add", "RdVerif.C07.flow_zero", "RdVerif.C07.flow_linear", "RdVerif.C07.flow_split",
             "RdVerif.C07.companions",
-            "RdVerif.C01.C01_oracle_sound"]
+            "RdVerif.C01.C01_oracle_sound", "RdVerif.AllDatasets.flow_add", "RdVerif.AllDatasets.flow_zero",
+            "RdVerif.AllDatasets.flow_linear", "RdVerif.AllDatasets.flow_split"]
 PARTIAL = {
     "C07_float_partial": "the exact flow laws are theorems; that the double-precision / 320-digit results obey them within the "
                          "sum of the per-call error bounds is checked per input (both sides against each other and against "
